@@ -72,10 +72,16 @@ def judge(case):
                 msgs.append(f"get_quaternion_index({ix}) = {gq.tolist()[:10]}, expected n mod n_b")
                 break
     try:
+        arr_before = arr.copy()
         with quiet():
             o_back, b_back, t_back = from_full_array_to_o_b_t(arr)
+            o_back2, b_back2, t_back2 = from_full_array_to_o_b_t(arr)
     except Exception as e:
         return msgs + [f"decomposition raised {type(e).__name__}: {e}"]
+    if not np.array_equal(arr, arr_before):
+        msgs.append("decomposing the full array modified the array that was passed in")
+    if not (np.array_equal(o_back, o_back2) and np.array_equal(b_back, b_back2) and np.array_equal(t_back, t_back2)):
+        msgs.append("decomposing the same array twice gives different grids")
     for name, back, gen in (("direction", o_back, dirs), ("rotation", b_back, quats), ("radial", t_back, radii)):
         back = np.asarray(back)
         if back.shape != gen.shape or not np.allclose(back, gen, rtol=0, atol=1e-8):
